@@ -185,7 +185,8 @@ def gen_table(rng, idx):
         rows.append([a[0], fresh() + "mark", rate()])
         rows.append([a[0], a[1], rate()])
     elif kind == 4:    # names that need reduction to identifiers
-        rows.append([fresh(), "tongan" + rng.choice(["pa'anga", "bolívar", "-vatu"]) + fresh(), rate()])
+        for odd in ("pa'anga", "bolívar", "-vatu"):      # every kind, every time (a non-ASCII name is in each real export)
+            rows.append([fresh(), "tongan" + odd + fresh(), rate()])
     return rows
 
 
